@@ -170,6 +170,23 @@ def _replay(v):
                 g2 = parsed(label, cm.parser, octs, chk2, None)
                 if g2 is not None:
                     same(label + " produce(parse)", CM.produce(g2))
+            # replies carrying application reply data of 1..4 octets (an odd length is padded to a whole word)
+            for a in v["apps"][:: (1 if f["serial"] == 1 else 3)]:
+                app = list(a["app"])
+                for label, octs, mk in (
+                        ("forward open reply + application data", a["rpy"], {"service": 0xDB if v["large"] else 0xD4, "status": 0, "forward_open": dict(
+                            ids, O_T={"connection_ID": u32(f["ot"]["id"]), "API": 1000000}, T_O={"connection_ID": u32(f["to"]["id"]), "API": 2000000},
+                            application={"data": app})}),
+                        ("forward close reply + application data", a["closerpy"], {"service": 0xCE, "status": 0, "forward_close": dict(ids, application={"data": app})})):
+                    want = bytes(bytearray(octs))
+                    same(label + " produce(fields)", CM.produce(W.dd(mk)))
+                    key = "forward_open" if "forward_open" in mk else "forward_close"
+                    g3 = parsed(label, cm.parser, octs, {"status": 0, key: ids}, None)
+                    if g3 is not None:
+                        got = list(g3[key].get("application.data") or [])
+                        if got[:len(app)] != app or len(got) != len(app) + len(app) % 2:
+                            out.append("%s: application data parsed as %r, sent %r" % (label, got, app))
+                        same(label + " produce(parse)", CM.produce(g3))
         elif k == "ucsend":
             m = {"service": 0x52, "path": {"segment": [{"class": 6}, {"instance": 1}]}, "priority": v["prio"],
                  "timeout_ticks": v["ticks"], "request": {"input": bytearray(v["msg"])}, "route_path": W.path_py(v["route"])}
